@@ -16,6 +16,8 @@ ANGLES = {
  "fault": "a FAULT or an unusual peer: a malformed/edge-case input from the other side, an error path, an option or plugin parameter that is rarely used, a retry or a second use of the same object",
  "interplay": "the INTERPLAY of two features that each work on their own (two annotations on neighbouring fields or on a message and the message nested in it, a header plus a query parameter, a path variable plus a body field, two services or two RPCs sharing a message, a plugin parameter plus an annotation)",
  "invocation": "the way the plugin is INVOKED or the run-time ENVIRONMENT of the emitted code (plugin parameters such as paths=source_relative, module=, M mappings, generate_mock, format; several files / packages / Go packages per invocation and their order; files without package or go_package; locale, time zone, GOMAXPROCS, HTTP/1.1 keep-alive or connection reuse of the emitted client and server)",
+ "ts": "the TYPESCRIPT side: something in what protoc-gen-ts-client or protoc-gen-ts-server emit (internal/tsclientgen, internal/tsservergen, internal/tscommon) — URL building, option handling, error classes, route descriptors, header validation, type declarations — that only a particular value, option, declaration shape or sequence of calls exposes",
+ "openapi": "the OPENAPI generator (internal/openapiv3, cmd/protoc-gen-openapiv3): schema conversion, parameters, responses, constraints, examples, component naming, rendering — broken only for a particular combination of declarations or parameters",
  "free": "anything specific of your choosing (a particular interleaving, multi-step sequence, unusual input, or two cooperating sites)",
 }
 
